@@ -857,13 +857,39 @@ func (env *SpecEnv) evalCall(e *SExpr) TV {
 				env.fail("onlyfresh() needs an old state")
 			}
 			except := map[string]bool{}
+			exceptAt := map[string][]*Term{}
 			for _, t := range env.modTargets(e.Args) {
-				except[t.key] = true
+				if t.idx == nil {
+					except[t.key] = true
+				} else {
+					exceptAt[t.key] = append(exceptAt[t.key], t.idx)
+				}
 			}
 			var cs []*Term
 			r := mkVar("of!", SRef)
 			for _, k := range sortedKeys(env.st.heap) {
 				if strings.HasPrefix(k, "$") || strings.HasPrefix(k, "P$") || except[k] {
+					continue
+				}
+				if ixs := exceptAt[k]; len(ixs) > 0 {
+					// excepted at single objects only: every OTHER old object of the family is unchanged
+					srt := vc.famSort[k]
+					if srt == nil || srt.Name != "Array" || srt.K != SRef {
+						continue
+					}
+					cur := env.st.heap[k]
+					init := env.old.heap[k]
+					if init == nil {
+						init = mkVar("H$"+k, srt)
+					}
+					if termEq(cur, init) {
+						continue
+					}
+					guard := []*Term{vc.allocatedIn(env.old, r)}
+					for _, ix := range ixs {
+						guard = append(guard, mkNeq(r, ix))
+					}
+					cs = append(cs, mkForall([]*Term{r}, mkImplies(mkAnd(guard...), mkEq(mkSelect(cur, r), mkSelect(init, r))), []*Term{mkSelect(cur, r)}))
 					continue
 				}
 				srt := vc.famSort[k]
